@@ -11,7 +11,7 @@ RULE = ("baseline exchanges (random config, reordering+duplicating real server) 
         "message each way; distinct = distinct scheduler decision traces.")
 ASSUMPTIONS = ["bounded progress: everything must arrive within 300 virtual seconds after the last cut",
                "cuts before a client's first successful open are excluded (documented as fatal)"]
-FLOORS = {"quick": {"drops": 300, "complete": 300}, "thorough": {"drops": 5000, "complete": 5000}}
+FLOORS = {"quick": {"drops": 300, "complete": 300, "sends_in_closing_window": 20}, "thorough": {"drops": 5000, "complete": 5000}}
 
 
 def cases(tier, seed, prep=None):
@@ -31,6 +31,11 @@ def cases(tier, seed, prep=None):
                 out.append({"kind": "sweep", "seed": seed * 7919 + 100 + b, "drop_at": k, "who": "AB"[k % 2],
                             "more_drops": [[k + gap, "AB"[(k + gap) % 2]], [k + 2 * gap, "AB"[k % 2]]],
                             "min_msgs": 1})
+    # the websocket library gives up on a silent connection (ping timeout) and an API call lands in
+    # the window before the client is told
+    for i in range(60 if tier == "quick" else 2000):
+        out.append({"kind": "pingtimeout", "seed": seed * 1000003 + 560000 + i, "who": "AB"[i % 2], "at": 40 + (i * 7) % 200,
+                    "min_msgs": 2})
     n_random = 300 if tier == "quick" else 10000
     for i in range(n_random):
         out.append({"kind": "random", "seed": seed * 1000003 + 500000 + i, "ndrops": [1, 2, 3, 4, 5, 6],
@@ -39,8 +44,50 @@ def cases(tier, seed, prep=None):
 
 
 def run_case(spec):
-    world, drv, sch, cfg = build_case(spec, max_msgs=8, max_size=300)
+    sub = dict(spec)
+    if spec["kind"] == "pingtimeout":
+        sub["kind"] = "plain"
+    world, drv, sch, cfg = build_case(sub, max_msgs=8, max_size=300)
+    window_sends = [0]
+    if spec["kind"] == "pingtimeout":
+        from ..env import client_link, rc_of
+        who = drv.app(spec["who"])
+        # keep the last planned send of `who` back for the window
+        held = {"payload": None}
+        plan = drv.plan[spec["who"]]
+        if plan:
+            held["payload"] = plan.pop()[0]
+        state = {"blackholed": False}
+
+        def stall():
+            link = client_link(world, who.w)
+            if link is not None and rc_of(who.w)._have_made_a_successful_connection:
+                world.reactor.blackhole(link)
+                state["blackholed"] = True
+                drv.drops_done += 1
+        sch.faults.append((spec["at"], stall, "blackhole mailbox link of " + spec["who"]))
+
+        def hook():
+            ws = rc_of(who.w)._ws
+            if state["blackholed"] and held["payload"] is not None and ws is not None and ws.state != ws.STATE_OPEN and not who.close_calls:
+                p, held["payload"] = held["payload"], None
+                window_sends[0] += 1
+                plan.append((p, "any"))
+                try:
+                    who.send(p)
+                except Exception as e:
+                    world.escapes.append((world.step, "app", "send in closing window", type(e).__name__, repr(e)[:200], ""))
+        sch.hook = hook
+        orig_all_sent = drv.all_sent
+        drv.all_sent = lambda: orig_all_sent() and held["payload"] is None
     sch.run(1200, until=drv.all_delivered)
+    if spec["kind"] == "pingtimeout":
+        # the silent link is only detected after the websocket ping timeout (30 s + 60 s)
+        sch.drain(200.0, 20000, until=lambda: held["payload"] is None)
+        if held["payload"] is not None and not who.close_calls:
+            p0, held["payload"] = held["payload"], None
+            plan.append((p0, "any"))
+            who.send(p0)
     last_fault_t = world.reactor.seconds()
     end = sch.drain(300.0, 12000, until=drv.all_delivered)
     t_done = world.reactor.seconds() - last_fault_t
@@ -93,6 +140,9 @@ def run_case(spec):
             viol.append({"key": "C09/first-command-not-bind", "msg": "connection %d started with %r" % (conn.conn_id, conn.cmds[0].get("type")),
                          "witness": wit()})
             break
+    for e in world.escapes:
+        viol.append({"key": "C09/api-call-raises/%s" % e[3], "msg": "%s: %s" % (e[2], e[4]), "witness": wit()})
+        break
     # close politely and make sure nothing odd happens (not part of the verdict beyond hangs)
     drv.a.close()
     drv.b.close()
@@ -109,7 +159,7 @@ def run_case(spec):
                      "server_connections": conns, "reconnects": max(0, conns - 2),
                      "delivered": len(drv.a.msgs) + len(drv.b.msgs), "kind_" + spec["kind"]: 1,
                      "notrans_seen": len(MON.notrans), "log_errors_seen": len(MON.errors),
-                     "virtual_seconds_to_complete": int(t_done)},
+                     "virtual_seconds_to_complete": int(t_done), "sends_in_closing_window": window_sends[0]},
         "sets": {"cmds_reissued": sorted({"%s" % c.get("type") for conn in world.server_conns[2:] for c in conn.cmds})},
         "sample": {"spec": spec, "cfg": {k: v for k, v in cfg.items() if not k.startswith("plan")},
                    "drops": drv.drops_done, "connections_at_server": conns,
